@@ -363,6 +363,9 @@ let check (b : block) : verdict list =
              step may stay invisible until a later one: the stored clause list is already wrong) ---- *)
           let new_var = List.exists (fun c -> List.exists (fun l -> abs l > st.n) c) adds in
           let unit_old = (match adds, rmvs with [[l]], [] -> abs l <= st.n | _ -> false) in
+          (* the shape that takes the unit path: exactly one added clause (after reduce_clause; a
+             repeated clause counts twice), of one literal, over an existing variable *)
+          let unit_shape = (match op_add with [[l]] -> abs l <= st.n | _ -> false) in
           let earlier_undo = List.mem "Undo" !strategies in
           let earlier_unit = List.mem "UnitClause" !strategies in
           let earlier_subdag = List.mem "SubDAGReplacement" !strategies in
@@ -390,8 +393,8 @@ let check (b : block) : verdict list =
               else if earlier_undo then Some "edit:after-undo-stale-cnf"
               else if rmvs <> [] && unit_reducible cls then Some "edit:clause-removal"
               else if List.length rmvs >= 2 then Some "edit:multi-clause-removal"
-              else if adds <> [] && not unit_old && cls = [] then Some "edit:add-on-empty-cnf"
-              else if (match adds with [[l]] -> abs l <= st.n | _ -> false) && rmvs <> [] then Some "edit:unit-add-drops-removal"
+              else if adds <> [] && not unit_shape && cls = [] then Some "edit:add-on-empty-cnf"
+              else if unit_shape && rmvs <> [] then Some "edit:unit-add-drops-removal"
               else if present_rmvs <> [] && core_shrinks && strat = "SubDAGReplacement" then Some "edit:removal-frees-core"
               else if new_var && strat = "SubDAGReplacement" then Some "edit:new-variable-subdag"
               else if free_feature && strat = "SubDAGReplacement" then Some "edit:free-feature-subdag"
